@@ -1239,6 +1239,7 @@ func checkWorkerCountBounded(c *Ctx, rule string) {
 // and below on every path before the body is allocated or read, and a short body is an error.
 func checkFrameLimits(c *Ctx, w *zworld) {
 	p := c.P
+	checkCutFrameIsNotCleanEOF(c, "O4")
 	// ---------- O3 frame limits ----------
 	if rp := p.Func("recvPacket"); rp == nil {
 		c.missing("O3", "recvPacket")
@@ -1349,4 +1350,92 @@ func checkFrameLimits(c *Ctx, w *zworld) {
 		}
 	}
 
+}
+
+// checkCutFrameIsNotCleanEOF (O4): io.EOF is how a frame reader tells its caller that the stream ended *between* two
+// frames.  io.ReadFull answers io.EOF when it could read nothing at all, so the read of a frame's body answers io.EOF
+// when the stream ends right behind the length word — inside a frame.  In both frame readers (recvPacket of the wire
+// codec, readPacket of filexfer) the error of the body read (the last io.ReadFull of the function) must not be handed
+// back as it is unless it has been compared with io.EOF and found different: a serve loop would take
+// <frame><length word> for a clean shutdown.
+func checkCutFrameIsNotCleanEOF(c *Ctx, rule string) {
+	p := c.P
+	n := 0
+	for _, fn := range []*ssa.Function{p.Func("recvPacket"), p.FuncIn(p.Sshfx, "readPacket")} {
+		if fn == nil {
+			continue
+		}
+		var reads []*ssa.Call
+		eachInstr(fn, func(in ssa.Instruction) {
+			if call, ok := in.(*ssa.Call); ok && (callIs(&call.Call, "io.ReadFull") || callIs(&call.Call, "io.ReadAtLeast")) {
+				reads = append(reads, call)
+			}
+		})
+		if len(reads) < 2 {
+			c.und(rule, fnName(fn)+" reads a length and a body", p.Pos(fn.Pos()), fmt.Sprintf("%d io.ReadFull calls found", len(reads)))
+			continue
+		}
+		body := reads[0]
+		for _, r := range reads {
+			if dominates(body, r) {
+				body = r
+			}
+		}
+		var errEx ssa.Value
+		for _, r := range *body.Referrers() {
+			if ex, ok := r.(*ssa.Extract); ok && ex.Index == 1 {
+				errEx = ex
+			}
+		}
+		if errEx == nil {
+			c.bad(rule, fnName(fn)+": a cut frame is not a clean end of stream", p.Pos(body.Pos()), "the error of the body read is ignored")
+			continue
+		}
+		n++
+		idx := fn.Signature.Results().Len() - 1
+		bad := ""
+		for _, rl := range returnLeaves(fn, idx) {
+			if rl.v != errEx {
+				continue // wrapped, replaced or another error
+			}
+			// handed back raw: only where it was compared with io.EOF and differs
+			differs := false
+			for b := rl.block; b != nil && !differs; b = b.Idom() {
+				preds := []*ssa.BasicBlock{rl.pred}
+				if b != rl.block || rl.pred == nil {
+					preds = b.Preds
+				}
+				for _, pred := range preds {
+					for cv, truth := range edgeConds(b, pred) {
+						bo, ok := cv.(*ssa.BinOp)
+						if !ok || (bo.Op != token.EQL && bo.Op != token.NEQ) {
+							continue
+						}
+						other := bo.Y
+						if bo.X != errEx {
+							if bo.Y != errEx {
+								continue
+							}
+							other = bo.X
+						}
+						isEOF := false
+						for _, l := range leavesOf(other) {
+							if l.Kind == leafGlobal && l.V.Name() == "EOF" {
+								isEOF = true
+							}
+						}
+						if isEOF && ((bo.Op == token.NEQ) == truth) {
+							differs = true
+						}
+					}
+				}
+			}
+			if !differs {
+				bad = p.Pos(body.Pos())
+			}
+		}
+		c.check(bad == "", rule, fnName(fn)+": a cut frame is not a clean end of stream", p.Pos(body.Pos()), "io.EOF from the body read is turned into an error of its own",
+			"the error of the body read is handed back as it is: when the stream ends right behind a frame's length word io.ReadFull answers io.EOF, the clean-end sentinel, and the caller takes a cut frame for an orderly shutdown")
+	}
+	c.check(n >= 2, rule, "frame readers", "?", fmt.Sprintf("%d readers", n), fmt.Sprintf("only %d frame readers found (recvPacket, filexfer readPacket)", n))
 }
